@@ -1,0 +1,16 @@
+//go:build verif
+// +build verif
+
+// Verification hooks for property C20 (add-only; compiled only with -tags verif).
+package hash_set
+
+// VerifDump exposes the internal representation: bucket heads, next links, free-list head,
+// length, and the bytes currently stored for every node (stale for free nodes).
+func (set *HashSet) VerifDump() (ha []int32, next []int32, free int32, length int, keys [][]byte) {
+	ha = append([]int32(nil), set.ha...)
+	for i := range set.np.array {
+		next = append(next, set.np.array[i].next)
+		keys = append(keys, append([]byte(nil), set.np.element(int32(i))...))
+	}
+	return ha, next, set.np.freeNode, set.np.length, keys
+}
